@@ -12,7 +12,7 @@ RULE = ("the post family: valid instances carrying described and undescribed mem
 
 
 def correspond(ctx, C):
-    n = 2500 if ctx.tier == "quick" else 150000
+    n = 8000 if ctx.tier == "quick" else 150000
     if ctx.search:
         n *= 3
     rows = C.run_family("post", n, ctx.seed + 19, ctx.tier, replay=S.replay_file(ctx, C))
